@@ -365,11 +365,11 @@ class InterpolatableFunction(ABC):
                         # TODO better error message, this is nonsensible if x is array or list
                         raise ValueError(f"Out of bounds: {x} < {self._rangeMin}")
                     case EExtrapolationType.NONE:
-                        res[xLower, :] = self._evaluateDirectly(x[xLower])
+                        res[xLower] = self._evaluateDirectly(x[xLower])
                     case EExtrapolationType.CONSTANT:
-                        res[xLower, :] = self.evaluateInterpolation(self._rangeMin)
+                        res[xLower] = self.evaluateInterpolation(self._rangeMin)
                     case EExtrapolationType.FUNCTION:
-                        res[xLower, :] = self.evaluateInterpolation(x[xLower])
+                        res[xLower] = self.evaluateInterpolation(x[xLower])
 
             ## Upper range
             if np.any(xUpper):
@@ -378,11 +378,11 @@ class InterpolatableFunction(ABC):
                         # TODO better error message, this is nonsensible if x is array or list
                         raise ValueError(f"Out of bounds: {x} > {self._rangeMax}")
                     case EExtrapolationType.NONE:
-                        res[xUpper, :] = self._evaluateDirectly(x[xUpper])
+                        res[xUpper] = self._evaluateDirectly(x[xUpper])
                     case EExtrapolationType.CONSTANT:
-                        res[xUpper, :] = self.evaluateInterpolation(self._rangeMax)
+                        res[xUpper] = self.evaluateInterpolation(self._rangeMax)
                     case EExtrapolationType.FUNCTION:
-                        res[xUpper, :] = self.evaluateInterpolation(x[xUpper])
+                        res[xUpper] = self.evaluateInterpolation(x[xUpper])
 
         return res
 
